@@ -272,7 +272,30 @@ def r1_framing_shape(L, repo):
 
 
 def origin(fd, name, depth=0):
-    """textual provenance of a local: follows plain and tuple-unpacking assignments"""
+    """textual provenance of a local: follows plain and tuple-unpacking assignments; `None` / `False` sentinels
+    assigned on failure paths (the use sits behind a test that excludes them) are not origins of a used value"""
+    outs = _origin(fd, name, depth)
+    real = [o for o in outs if o not in ("None", "False")]
+    if real and len(real) < len(outs):
+        outs = real
+    # a plain copy of another local stands for that local's origin
+    res = []
+    for o in outs:
+        if o.isidentifier() and depth < 4 and o != name:
+            sub = origin(fd, o, depth + 1)
+            res += sub if sub else [o]
+        else:
+            import re as _re
+            m_ = _re.fullmatch(r"([A-Za-z_]\w*)\[(\d+)\]", o)
+            if m_ and depth < 4 and m_.group(1) != name:
+                sub = origin(fd, m_.group(1), depth + 1)
+                res += ["%s[%s]" % (x, m_.group(2)) for x in sub] if sub else [o]
+            else:
+                res.append(o)
+    return res
+
+
+def _origin(fd, name, depth=0):
     outs = []
     for n in ast.walk(fd):
         if isinstance(n, ast.Assign) and len(n.targets) == 1:
@@ -401,13 +424,78 @@ def r3_skip_count(L, repo, hl):
     if len(loops) != 1:
         return
     loop = loops[0]
-    pre = [s for s in pa.body if s.lineno < loop.lineno]
+    li = next((i for i, s_ in enumerate(pa.body) if any(x is loop for x in ast.walk(s_))), None)
+    if li is None:
+        raise AnalysisError("parse_all: read loop is not a top-level statement")
+    pre = pa.body[:li]
+    after = pa.body[li + 1:]
+    tail_ret = canon(after[0].value) if after and isinstance(after[0], ast.Return) and after[0].value is not None else None
+
+    # a conditional expression on `skip` inside a statement is the two-branch form of that statement
+    class SplitIf(ast.NodeTransformer):
+        def __init__(self):
+            self.found = None
+
+        def visit_IfExp(self, n):
+            if self.found is None and any(isinstance(x, ast.Name) and x.id == SKIP for x in ast.walk(n.test)):
+                self.found = n
+            return n
+
+    def split_stmts(stmts):
+        out = []
+        for st in stmts:
+            sp = SplitIf()
+            sp.visit(st)
+            if sp.found is None or not isinstance(st, (ast.Assign, ast.Expr)):
+                out.append(st)
+                continue
+            from pyfront import clone as _cl
+
+            def with_branch(pick):
+                class R(ast.NodeTransformer):
+                    def visit_IfExp(self_, n):
+                        if ast.dump(n) == ast.dump(sp.found):
+                            return _cl(pick(n))
+                        return self_.generic_visit(n)
+                return R().visit(_cl(st))
+            out.append(ast.copy_location(ast.If(test=sp.found.test, body=[with_branch(lambda n: n.body)],
+                                                orelse=[with_branch(lambda n: n.orelse)]), st))
+        return out
     fw = Fwd(split=True)
-    fw.run(pre)
-    eff = sorted((tuple(c), e) for c, e in fw.effects if "log." not in e)
-    want_eff = sorted([((("None is %s" % SKIP, True),), "self.f.seek(0)")])
-    L.require("C15.R3", F, fn, "without skip the file is read from the start", want_eff, eff)
+    fw.run(split_stmts(pre))
+    # _seek2msg(0): rewinds and, skipping nothing, reports success (folded from its source)
+    from consteval import Ev, Unknown, Raised
+    seek0 = None
+    try:
+        e0 = Ev(repo, ci.mod, env={IDX: 0}, self_cls=ci)
+        seeks0 = []
+        e0.hooks = {"self.f.seek": lambda a: seeks0.append(tuple(a)), "self.f.read": lambda a: b""}
+        r0 = e0.run_block(sk.body)
+        seek0 = (r0[1] if isinstance(r0, tuple) else None, seeks0)
+    except (Unknown, Raised):
+        seek0 = None
+    seek0_ok = seek0 == (True, [(0,)])
+    start_ok, bad_start = False, []
+    for c_, e_ in fw.effects:
+        if "log." in e_:
+            continue
+        if ("None is %s" % SKIP, True) in c_ and e_ == "self.f.seek(0)":
+            start_ok = True
+    for c_, r_ in list(fw.returns) + [(c2, None) for c2, _e in fw.effects]:
+        if ("None is %s" % SKIP, True) in c_ and any(t_.startswith("self._seek2msg(0)") for t_, p_ in c_) and seek0_ok:
+            start_ok = True
+    if not start_ok:
+        # the positioning call may be bound to a local that is tested afterwards
+        for c_, e_ in fw.effects:
+            pass
+        txt = "\n".join(canon(x) for x in split_stmts(pre))
+        if "self._seek2msg(0)" in txt and seek0_ok:
+            start_ok = True
+    L.ob("C15.R3", F, fn, "without skip the file is read from the start (seek(0), directly or through _seek2msg(0))",
+         "self.f.seek(0) on the path where skip is None", sorted((tuple(c), e) for c, e in fw.effects if "log." not in e)[:3], start_ok, pa.lineno)
     rr = sorted((tuple(c), canon(r) if r is not None else "None") for c, r in fw.returns)
+    # a failure of _seek2msg(0) cannot happen (folded above): such paths are infeasible
+    rr = [x for x in rr if not (seek0_ok and any(t_ == "self._seek2msg(0)" and not p_ for t_, p_ in x[0]))]
     want_r = [((("None is %s" % SKIP, False), ("self._seek2msg(%s)" % SKIP, False)), "False")]
     L.require("C15.R3", F, fn, "with skip the file is positioned by _seek2msg(skip); failure is a range error (False)", want_r, rr)
     # loop body decision table
@@ -418,7 +506,7 @@ def r3_skip_count(L, repo, hl):
     MV = canon(msgdefs[0].targets[0])
     RES = None
     for n in ast.walk(pa):
-        if isinstance(n, ast.Return) and n.value is not None and isinstance(n.value, ast.Name) and n.lineno > loop.lineno:
+        if isinstance(n, ast.Return) and n.value is not None and isinstance(n.value, ast.Name) and any(n is x for x in after):
             RES = n.value.id
 
     def evn(st):
@@ -430,6 +518,8 @@ def r3_skip_count(L, repo, hl):
         if isinstance(st, ast.Assign) and st in msgdefs:
             return None
         if isinstance(st, ast.Return):
+            if st.value is not None and tail_ret is not None and canon(st.value) == tail_ret:
+                return ("break",)       # leaving the loop towards `return <the list>` is what `break` does
             return ("ret", canon(st.value) if st.value else None)
         if isinstance(st, ast.Assign):
             return ("store", canon(st))
